@@ -320,6 +320,32 @@ def c01_9(ctx):
     _refcheck(ctx, GEN, "Generator.points_for_x", "gn_points_for_x", "recovery-candidates")
 
 
+# ------------------------------------------------------------------ C01.10
+def c01_10(ctx):
+    """the digest reaches the nonce generator and the s equation as it is: RFC 6979 takes the leftmost bits of the HASH
+    (bits2int), so a wrapper that reduces it modulo the order first changes the nonce (and refuses z = n)"""
+    g = ctx.func(GEN, "Generator.sign")
+    valp = g.params()[2]
+    w = sym.walk(ctx, g)
+    calls = [e for e in w.effects if e.kind == "call" and norm(e.raw.func) == "self.sign_with_recid"]
+    if not calls:
+        raise Undecided("Generator.sign does not delegate to self.sign_with_recid")
+    for e in calls:
+        a = e.call.args
+        ctx.check(len(a) >= 2 and norm(a[1]) == valp, "sign-forwards-hash", ctx.where(g, e.node),
+                  "Generator.sign hands `%s` to sign_with_recid where the caller's value `%s` belongs: the nonce is derived from the hash itself" % (norm(a[1]) if len(a) >= 2 else None, valp))
+    k = ctx.func(KEY, "Key.sign")
+    hp = k.params()[1]
+    wk = sym.walk(ctx, k)
+    sc = [e for e in wk.effects if e.kind == "call" and norm(e.raw.func).endswith("_generator.sign")]
+    if not sc:
+        raise Undecided("Key.sign does not call the generator's sign")
+    for e in sc:
+        a = e.call.args
+        ctx.check(len(a) >= 2 and norm(a[1]) in ("from_bytes_32(%s)" % hp, "int.from_bytes(%s, 'big')" % hp, "int.from_bytes(%s, byteorder='big')" % hp), "key-sign-forwards-hash", ctx.where(k, e.node),
+                  "Key.sign signs `%s`; the value signed is the 32-byte hash read as a big-endian integer, unreduced" % (norm(a[1]) if len(a) >= 2 else None))
+
+
 OBLIGATIONS = [
     Ob("C01.1", "verify: range guards as intervals, boolean exits only", c01_1, floor=5, engines="SYM,GI", breaks_if="(r,n), (0,s), (n+r,s), val=0"),
     Ob("C01.2", "verify: accepted iff ((val/s)G + (r/s)Q).x mod n == r", c01_2, floor=2, engines="SYM", breaks_if="any signature / swapped u1,u2"),
@@ -329,5 +355,6 @@ OBLIGATIONS = [
     Ob("C01.6", "sign_with_recid: retry guard, r/s definitions modulo the order, recovery id", c01_6, floor=2, engines="SYM,GI", breaks_if="r == 0 or s == 0 returned; wrong modulus"),
     Ob("C01.7", "Key.sign / Key.verify DER wrapper: strict decode, errors to False, (r,s) order", c01_7, floor=4, engines="SYM"),
     Ob("C01.8", "native backends override only arithmetic / sign / verify", c01_8, floor=3, engines="PM,SIB"),
+    Ob("C01.10", "sign wrappers hand the digest on unreduced (RFC 6979 bits2int takes the hash itself)", c01_10, floor=2, engines="SYM", breaks_if="z = n on secp256k1; every z >= n on a curve with a shorter order"),
     Ob("C01.9", "public-key recovery formula and candidate selection", c01_9, floor=2, engines="SYM", breaks_if="recovered key does not verify"),
 ]
